@@ -16,9 +16,10 @@ open SnowModel.Stop
 
 theorem countReps_eq : Gen.StopApi.countReps = COUNT_REPS := rfl
 
-/-- class attributes `starting_id = 0`, `rep_count = 0` (D20 lives here: not the continuation's id) -/
+/-- class attributes `starting_id = None` (unset until the first boundary, repair 96e00ac),
+    `rep_count = 0` -/
 theorem app_init_eq :
-    Gen.StopApi.startingIdInit = (App.init.startingId : Int) ∧
+    Gen.StopApi.startingIdInit = App.init.startingId.map (fun (n : Nat) => (n : Int)) ∧
     Gen.StopApi.repCountInit = (App.init.repCount : Int) := ⟨rfl, rfl⟩
 
 /-- `stopping_criteria or StoppingCriteria(COUNT_REPS, 1)` -/
@@ -46,11 +47,29 @@ theorem progressStalled_eq (last sid : Nat) :
 
 theorem newStartingId_eq (last : Nat) : Gen.StopApi.newStartingId last = (last : Int) := rfl
 
+/-- first boundary of a run: `if self.starting_id is None: self.starting_id = start_ids.get(T, 1) - 1`
+    with the same default start id as `check_if_finished` -/
+theorem progress_first_shape :
+    Gen.StopApi.progressFirstGuard = "self.starting_id is None" ∧
+    Gen.StopApi.progressStartDefault = Gen.StopApi.startDefault := ⟨rfl, rfl⟩
+
+/-- `sidOf`: the value `starting_id` has when the comparison is made -/
+theorem sidOf_eq (start : Nat) (app : App) (h : 1 ≤ start) :
+    (sidOf start app : Int) = match app.startingId with
+      | none => Gen.StopApi.initialStartingId start
+      | some s => (s : Int) := by
+  cases app with
+  | mk sid rc =>
+    cases sid with
+    | none => simp only [sidOf, Gen.StopApi.initialStartingId]; omega
+    | some s => rfl
+
 /-- the model's `ensureProgress`, for a truthy target name, is the pinned comparison and update -/
-theorem ensureProgress_eq (c : Crit) (app : App) (last : Nat) (h : truthy (stoppingTablename c) = true) :
-    ensureProgress c app last =
-      if Gen.StopApi.progressStalled last app.startingId then none
-      else some ⟨(Gen.StopApi.newStartingId last).toNat, app.repCount⟩ := by
+theorem ensureProgress_eq (c : Crit) (start : Nat) (app : App) (last : Nat)
+    (h : truthy (stoppingTablename c) = true) :
+    ensureProgress c start app last =
+      if Gen.StopApi.progressStalled last (sidOf start app) then none
+      else some ⟨some (Gen.StopApi.newStartingId last).toNat, app.repCount⟩ := by
   simp [ensureProgress, h, progressStalled_eq, newStartingId_eq]
 
 /-! #### api.py: `check_if_finished` -/
@@ -142,10 +161,11 @@ theorem execute_body :
       ["RowHistoryCV.set(self.row_history)", "self.current_context = RuntimeContext(interpreter=self)",
        "self.loop_over_templates_until_finished(self.continuing)", "return self.globals"] := rfl
 
-/-- the validation of `Interpreter.__init__` (= `Stop.rejects`: truthiness, then membership) -/
+/-- the validation of `Interpreter.__init__` (= `Stop.rejects`: `is not None`, then membership;
+    repair 6604eb0) -/
 theorem reject_shape :
     Gen.StopRuntime.stopTableName = "stop_table_name = parent_application.stopping_tablename" ∧
-    Gen.StopRuntime.rejectTest = "stop_table_name and stop_table_name not in parse_result.tables" ∧
+    Gen.StopRuntime.rejectTest = "stop_table_name is not None and stop_table_name not in parse_result.tables" ∧
     Gen.StopRuntime.rejectRaises = "DataGenNameError" := ⟨rfl, rfl, rfl⟩
 
 end SnowModel.Props.C07Bridge
